@@ -231,7 +231,7 @@ def run_sweep(T, tier, seed, optsets, name='core'):
                 for ii, s in enumerate(ins):
                     k = '%s|%s|%d|%d' % (rid, e, 1 if memo else 0, ii)
                     cases.append({'pkg': rid, 'k': k, 'entry': e, 'memo': memo, 'b64': L.b64(s)})
-                    lst.append({'k': k, 'entry': e, 'memo': memo, 'input': L.runes_of(s), 'spec': True})
+                    lst.append({'k': k, 'entry': e, 'memo': memo, 'bytes': L.bytes_of(s), 'spec': True})
         mcases[rid] = {'id': rid, 'tree': x['tree'], 'opts': o, 'cases': lst}
     robs = M.run(cases)
     stats['t_run_real_s'] = round(time.time() - t0, 1)
